@@ -396,3 +396,70 @@ Proof.
      destruct (noFileWrites c); cbn in Hx; repeat (destruct Hx as [<-|Hx]; auto); try contradiction). }
   destruct Hr as [-> | ->]; cbn [io_step] in Hin; eapply H; try exact Hin; discriminate.
 Qed.
+
+(* ---- all three flags: from empty tables a run touches nothing but standard streams ---- *)
+
+Lemma nll_std fuel : forall c e s, noFileReads c = true ->
+  forallb is_std (fst (fst (next_line_loop fuel c e s))) = true.
+Proof.
+  induction fuel as [|f IH]; intros c e s Hnr; [reflexivity|].
+  cbn [next_line_loop].
+  assert (ATT : forall effs0 k s0, forallb is_std effs0 = true ->
+      forallb is_std (fst (fst (match k with
+      | S k' => (effs0, NLRecord, set_main_in (Some k') s0)
+      | O => let '(e2, o2, s2) := next_line_loop f c e (set_main_in None s0) in (effs0 ++ e2, o2, s2)
+      end))) = true).
+  { intros effs0 k s0 H0. destruct k; [|exact H0].
+    specialize (IH c e (set_main_in None s0) Hnr).
+    destruct (next_line_loop f c e (set_main_in None s0)) as [[e2 o2] s2]. cbn in *.
+    rewrite forallb_app, H0, IH. reflexivity. }
+  destruct ((argc s <=? fidx s) && negb (had_files s)). { apply ATT. reflexivity. }
+  destruct (argc s <=? fidx s). { reflexivity. }
+  destruct (negb (noArgVars c) && is_var_assign (argv_get (fidx s) (argv s))). { apply IH. exact Hnr. }
+  destruct (bytes_eqb (argv_get (fidx s) (argv s)) []). { apply IH. exact Hnr. }
+  destruct (bytes_eqb (argv_get (fidx s) (argv s)) dash). { apply ATT. reflexivity. }
+  rewrite Hnr. reflexivity.
+Qed.
+
+Definition tables_empty (s : state) : Prop := ins s = [] /\ outs s = [].
+
+Lemma sandboxed_step c e s r :
+  noExec c = true -> noFileWrites c = true -> noFileReads c = true -> tables_empty s ->
+  forallb is_std (fst (fst (io_step c e s r))) = true /\ tables_empty (snd (io_step c e s r)).
+Proof.
+  intros Hx Hw Hr [Hi Ho]. unfold tables_empty.
+  destruct r; cbn [io_step].
+  1-2: unfold get_output_stream; rewrite Hi, Ho; cbn [lookup]; rewrite ?Hw, ?Hx;
+       destruct (bytes_eqb name dash); cbn; auto.
+  - unfold get_output_stream. rewrite Hi, Ho. cbn [lookup]. rewrite Hx. cbn. auto.
+  - unfold get_input_scanner_file. rewrite Hi, Ho. cbn [lookup]. rewrite Hr.
+    destruct (bytes_eqb name dash); cbn; auto.
+  - unfold get_input_scanner_pipe. rewrite Hi, Ho. cbn [lookup]. rewrite Hx. cbn. auto.
+  - unfold builtin_system. rewrite Hx. cbn. auto.
+  - pose proof (next_line_via_tables c e s v) as [Ti To]. rewrite Ti, To. split; [|auto].
+    unfold next_line_via, next_line.
+    destruct (main_in s) as [[|k]|].
+    + pose proof (nll_std (next_line_fuel s) c e (set_main_in None s) Hr) as H.
+      destruct (next_line_loop (next_line_fuel s) c e (set_main_in None s)) as [[e1 o1] s1].
+      destruct o1; destruct v; exact H.
+    + destruct v; reflexivity.
+    + pose proof (nll_std (next_line_fuel s) c e s Hr) as H.
+      destruct (next_line_loop (next_line_fuel s) c e s) as [[e1 o1] s1].
+      destruct o1; destruct v; exact H.
+  - unfold builtin_close. rewrite Hi, Ho. cbn. auto.
+  - cbn. auto.
+  - destruct (maxFieldIndex <? n); cbn; auto.
+  - unfold builtin_fflush. rewrite Ho. destruct (bytes_eqb name []); cbn; auto.
+Qed.
+
+Theorem sandboxed_only_std : forall c e h s,
+  noExec c = true -> noFileWrites c = true -> noFileReads c = true -> tables_empty s ->
+  forallb is_std (run_effects c e s h) = true.
+Proof.
+  intros c e h. unfold run_effects, effects_of.
+  induction h as [|r h IH]; intros s Hx Hw Hr Ht; [reflexivity|].
+  cbn [run_log]. destruct (sandboxed_step c e s r Hx Hw Hr Ht) as [Hs Ht'].
+  destruct (io_step c e s r) as [[effs o] s']. cbn in Hs, Ht'.
+  cbn [map fst concat]. rewrite forallb_app, Hs. cbn [andb].
+  destruct (is_continue o); [apply IH; assumption | reflexivity].
+Qed.
